@@ -57,6 +57,11 @@ def _progs(tier: str) -> List[Dict[str, Any]]:
         for env in ("freeze_first", "input_no_grad", "no_grad_call"):
             out.append({"prog": {"items": [["op", k], ["op", "tanh"], ["op", "linear:nn"]], "sink": "sum",
                                  **({"freeze_first": True} if env == "freeze_first" else {})}, "fmt": FORMATS[n % 4], "env": env})
+    # call history: the parameters are updated between two calls of the transformed module - through `.data`
+    # (no version bump), in place under no_grad, and by load_state_dict
+    for n, k in enumerate(LIN + ULIN):
+        for upd in ("data_assign", "data_inplace", "no_grad_inplace", "load_state_dict"):
+            out.append({"prog": {"items": [["op", k], ["op", "tanh"]], "sink": "sum"}, "fmt": ["rn", "fp8_api", "sr3"][n % 3], "update": upd})
     # nested transform on a torch.nn root (nn.Sequential / a bare nn.Linear)
     for f in FORMATS:
         for pre in ("nested", "nested_called"):
@@ -188,6 +193,29 @@ def run_case(case: Dict[str, Any]) -> Dict[str, Any]:
                 viol.append({"key": ident + "|quantise_bwd_value_touched", "msg": f"{case}"})
             if not same(gx, fm.quantise(up)):
                 viol.append({"key": ident + "|quantise_bwd_gradient", "msg": f"{case}"})
+            if case["shape"] != "sweep":
+                # the tensor given to quantise_bwd has ANOTHER consumer (skip branch): only the gradient flowing
+                # through the call is quantised; and two calls on one tensor quantise their own gradients
+                x = x0.clone().requires_grad_(True)
+                h = x * 1.0
+                z = fm.quantise_bwd(h)
+                (gx,) = torch.autograd.grad([z, h], x, [up, up * 3.0])
+                want = fm.quantise(up) + up * 3.0
+                if not same(gx, want):
+                    viol.append({"key": ident + "|quantise_bwd_touches_other_consumers", "msg": f"{case}"})
+                x = x0.clone().requires_grad_(True)
+                h = x * 1.0
+                z1, z2 = fm.quantise_bwd(h), fm.quantise_bwd(h)
+                (gx,) = torch.autograd.grad([z1, z2], x, [up, up * 0.5])
+                want = fm.quantise(up) + fm.quantise(up * 0.5)
+                if not same(gx, want):
+                    viol.append({"key": ident + "|quantise_bwd_twice_on_one_tensor", "msg": f"{case}"})
+                x = x0.clone().requires_grad_(True)
+                h = x * 1.0
+                z = fm.quantise_fwd(h)
+                (gx,) = torch.autograd.grad([z, h], x, [up, up * 3.0])
+                if not same(gx, up + up * 3.0) or not same(z.detach(), fm.quantise(x0)):
+                    viol.append({"key": ident + "|quantise_fwd_touches_other_consumers", "msg": f"{case}"})
         return {"violations": viol, "steps": 2, "outcome": "prim"}
 
     import torch._dynamo
@@ -309,6 +337,26 @@ def run_case(case: Dict[str, Any]) -> Dict[str, Any]:
                                  f"module simulated with {case['other_fmt']} after one simulated with {fname} differs from its hand-quantised reference\n" + src})
             torch._dynamo.reset()
             y_imp, g_imp = run(t, t)
+            if case.get("update"):
+                # second call after a parameter update: reference = hand-quantised interpreter on the updated values
+                ident += f"|after_{case['update']}"
+                upd = case["update"]
+                with torch.no_grad():
+                    for j, p_ in enumerate(t.parameters()):
+                        newv = p_.detach() * 1.25 + 0.125 * (j + 1)
+                        if upd == "data_assign":
+                            p_.data = newv.clone()
+                        elif upd == "data_inplace":
+                            p_.data.copy_(newv)
+                        elif upd == "no_grad_inplace":
+                            p_.copy_(newv)
+                    if upd == "load_state_dict":
+                        t.load_state_dict({kk: vv * 1.25 + 0.5 for kk, vv in t.state_dict().items()})
+                ref_m.load_state_dict(t.state_dict())
+                y_ref, g_ref = run(ref_m, lambda *a: Interp(prog, ref_m, QuantSemantics(fwd, bwd)).run(*a))
+                y_imp, g_imp = run(t, t)
+                plain_m.load_state_dict(t.state_dict())
+                y_plain, g_plain = run(plain_m, plain_m)
     except Exception as e:  # noqa
         v = exception_violation(e, ident)
         v["msg"] += "\n" + src
